@@ -134,9 +134,45 @@ def _mk_fs(name, op=None):
     return fs
 
 
+class _WrittenFile:
+    """A file the code under test opened for writing: a scheduling point sits before the close, while the
+    file already exists but what was written is still in the buffer (other ranks see it empty or partial)."""
+
+    def __init__(self, f, path):
+        object.__setattr__(self, '_f', f)
+        object.__setattr__(self, '_path', path)
+
+    def close(self):
+        if not self._f.closed:
+            _fs_point('close', self._path)
+        return self._f.close()
+
+    def __enter__(self):
+        self._f.__enter__()
+        return self
+
+    def __exit__(self, *a):
+        if not self._f.closed:
+            _fs_point('close', self._path)
+        return self._f.__exit__(*a)
+
+    def __iter__(self):
+        return iter(self._f)
+
+    def __getattr__(self, name):
+        return getattr(self._f, name)
+
+    def __setattr__(self, name, value):
+        setattr(self._f, name, value)
+
+
 def _open(file, *a, **k):
     if isinstance(file, (str, bytes, os.PathLike)):
         _fs_point('open', file)
+        mode = a[0] if a else k.get('mode', 'r')
+        w, r = simworld.current()
+        if w is not None and isinstance(mode, str) and any(c in mode for c in 'wax+') and _from_code_under_test(2):
+            return _WrittenFile(_real['open'](file, *a, **k), file)
     return _real['open'](file, *a, **k)
 
 
